@@ -198,9 +198,12 @@ def _evaluate_world(ctx, use_fp: bool, kinds, ret: str, abi_out: bool, n_locals:
     def impl(*args, **kwargs):
         captured["args"] = list(args)
         captured["kwargs"] = dict(kwargs)
+        st_ = captured.get("ctx_stack") or []
+        captured["impl_in_context"] = bool(st_)
+        captured["impl_context_value"] = st_[-1] if st_ else None
         # the user's function allocates n_locals frame variables (abi.Uint64() etc. inside the body): under frame
         # pointers these are appended to the local types of the proto that is current while the body is built
-        proto = (captured.get("ctx") or [None])[-1]
+        proto = captured["impl_context_value"]
         if n_locals and isinstance(proto, Rec) and proto.is_call("Proto"):
             layout = proto.kwargs.get("mem_layout")
             q.need(isinstance(layout, Rec) and layout.is_call("ProtoStackLayout") and isinstance(layout.args[1], list), "Proto's mem_layout is not ProtoStackLayout(args, locals, ...)")
@@ -255,7 +258,10 @@ def _evaluate_world(ctx, use_fp: bool, kinds, ret: str, abi_out: bool, n_locals:
         if t == "OutputKwArgInfo":
             return OK_sym
         if isinstance(e, ast.Call) and u(e.func) == "_frame_pointer_context" and len(e.args) == 1:
-            captured.setdefault("ctx", []).append(me.ev(e.args[0]))
+            val = me.ev(e.args[0])
+            captured.setdefault("ctx", []).append(val)
+            stack = captured.setdefault("ctx_stack", [])
+            return Sym("frame-pointer-context", methods={"__enter__": lambda: (stack.append(val), val)[1], "__exit__": lambda *a: stack.pop()})
         raise Unknown()
 
     def setup(me):
@@ -294,6 +300,16 @@ def r02_2_convention(ctx):
                 if loaded is None or len(loaded) != n:
                     problems.append(f"the implementation receives {0 if loaded is None else len(loaded)} positional arguments for {n} parameters")
                     loaded = loaded or []
+                # --- the body is built with the right "current proto": the routine's own under frame pointers, none (explicitly
+                # cleared) under the scratch convention - ABI values created by the body take their storage from it
+                if not cap.get("impl_in_context"):
+                    problems.append("the user's function is called outside any _frame_pointer_context: an evaluation that is itself nested in a frame-pointer routine's evaluation would give the body's ABI values frame cells of that other routine")
+                else:
+                    cv = cap.get("impl_context_value")
+                    if use_fp and not (isinstance(cv, Rec) and cv.is_call("Proto")):
+                        problems.append(f"under frame pointers the body must be built with the routine's proto current; it is built with {_strip(cv)}")
+                    if not use_fp and cv is not None:
+                        problems.append(f"under the scratch convention the body must be built with no proto current; it is built with {_strip(cv)}")
                 # --- body: prologue then the user body last
                 if not ops or not (isinstance(ops[-1], Sym) and ops[-1].name == "user-body"):
                     problems.append("the user's body is not the last element of the routine")
